@@ -607,16 +607,25 @@ impl Wal {
 
         let mut segment = self.current_segment.lock();
 
+        // Frames still sitting in the write buffer belong to the log that is being
+        // discarded: push them out before the cut so they cannot land after it.
+        segment
+            .writer
+            .flush()
+            .wrap_err("failed to flush WAL segment before truncate")?;
+
         segment
             .writer
             .get_mut()
             .set_len(0)
             .wrap_err("failed to truncate WAL segment file")?;
 
+        // set_len does not move the file cursor; without this the next frame would be
+        // written at the old end, behind a hole of zero bytes.
         segment
             .writer
-            .flush()
-            .wrap_err("failed to flush WAL segment after truncate")?;
+            .seek(SeekFrom::Start(0))
+            .wrap_err("failed to rewind WAL segment after truncate")?;
 
         segment.offset = 0;
 
